@@ -71,7 +71,7 @@ package compiler
 //@   locals err, includeName, include, ok
 //@   decreases tree(t)
 //@ func parser.getImports(t)
-//@   locals list, slicelit, imp, rangeindex, imp, rangeindex, imp, rangeindex, imp, rangeindex
+//@   locals list, imp, rangeindex, imp, rangeindex, imp, rangeindex, imp, rangeindex
 //@   decreases tree(t)
 //@ func parser.parseFrugal(filePath, visitedIncludes, cache)
 //@   locals file, err, name, cached, ok, parsed, frugal, incl, rangeindex, include, err, parsedIncl, err, includeBase, includeName
@@ -205,21 +205,21 @@ package compiler
 //@   trusted
 //@   ensures result == normprefix(s)
 //@ func parser.Auditor.checkScopePrefix(a, oldPrefix, newPrefix, context)
-//@   locals oldNorm
+//@   locals oldNorm, newNorm
 //@   requires a.logger != nil && tdwf(a.oldFrugal) && tdwf(a.newFrugal)
 //@   ensures flag(a) == (old(flag(a)) || normprefix(oldPrefix.String) != normprefix(newPrefix.String))
 //@   modifies ghost(errflag, a.logger), alloc
 
 // Checkers that may only warn never set the flag.
 //@ func parser.Auditor.checkNamespaces(a, oldNamespace, newNamespace)
-//@   locals namespace, rangeindex, rangeindex, ok
+//@   locals newMap, namespace, rangeindex, rangeindex, ok
 //@   requires a.logger != nil && tdwf(a.oldFrugal) && tdwf(a.newFrugal)
 //@   ensures flag(a) == old(flag(a))
 //@   modifies ghost(errflag, a.logger), alloc
 //@   loop 0 invariant a == a0 && newMap != nil
 //@   loop 1 invariant a == a0 && flag(a) == old(flag(a))
 //@ func parser.Auditor.checkConstants(a, oldConstants, newConstants)
-//@   locals constant, rangeindex, oldConstant, rangeindex, ok, context
+//@   locals newMap, constant, rangeindex, oldConstant, rangeindex, newConstant, ok, context
 //@   requires a.logger != nil && tdwf(a.oldFrugal) && tdwf(a.newFrugal)
 //@   ensures flag(a) == old(flag(a))
 //@   modifies ghost(errflag, a.logger), alloc
@@ -228,56 +228,56 @@ package compiler
 
 // Monotone checkers (the flag is never cleared); what sets it is decided per iteration.
 //@ func parser.Auditor.checkScopes(a, oldScopes, newScopes)
-//@   locals scope, rangeindex, oldScope, rangeindex, ok, context
+//@   locals newMap, scope, rangeindex, oldScope, rangeindex, newScope, ok, context
 //@   requires a.logger != nil && tdwf(a.oldFrugal) && tdwf(a.newFrugal)
 //@   ensures old(flag(a)) ==> flag(a)
 //@   modifies ghost(errflag, a.logger), alloc
 //@   loop 0 invariant a == a0 && newMap != nil
 //@   loop 1 invariant a == a0 && (old(flag(a)) ==> flag(a))
 //@ func parser.Auditor.checkOperations(a, oldOps, newOps, context)
-//@   locals op, rangeindex, oldOp, rangeindex, ok, opContext
+//@   locals newMap, op, rangeindex, oldOp, rangeindex, newOp, ok, opContext
 //@   requires a.logger != nil && tdwf(a.oldFrugal) && tdwf(a.newFrugal)
 //@   ensures old(flag(a)) ==> flag(a)
 //@   modifies ghost(errflag, a.logger), alloc
 //@   loop 0 invariant a == a0 && newMap != nil
 //@   loop 1 invariant a == a0 && (old(flag(a)) ==> flag(a))
 //@ func parser.Auditor.checkEnums(a, oldEnums, newEnums)
-//@   locals enum, rangeindex, oldEnum, rangeindex, ok, context
+//@   locals newMap, enum, rangeindex, oldEnum, rangeindex, newEnum, ok, context
 //@   requires a.logger != nil && tdwf(a.oldFrugal) && tdwf(a.newFrugal)
 //@   ensures old(flag(a)) ==> flag(a)
 //@   modifies ghost(errflag, a.logger), alloc
 //@   loop 0 invariant a == a0 && newMap != nil
 //@   loop 1 invariant a == a0 && (old(flag(a)) ==> flag(a))
 //@ func parser.Auditor.checkEnumValues(a, oldValues, newValues, context)
-//@   locals value, rangeindex, oldValue, rangeindex, ok
+//@   locals newMap, value, rangeindex, oldValue, rangeindex, newValue, ok
 //@   requires a.logger != nil && tdwf(a.oldFrugal) && tdwf(a.newFrugal)
 //@   ensures old(flag(a)) ==> flag(a)
 //@   modifies ghost(errflag, a.logger), alloc
 //@   loop 0 invariant a == a0 && newMap != nil
 //@   loop 1 invariant a == a0 && (old(flag(a)) ==> flag(a))
 //@ func parser.Auditor.checkStructLike(a, oldStructs, newStructs)
-//@   locals s, rangeindex, oldStruct, rangeindex, ok, context
+//@   locals newMap, s, rangeindex, oldStruct, rangeindex, newStruct, ok, context
 //@   requires a.logger != nil && tdwf(a.oldFrugal) && tdwf(a.newFrugal)
 //@   ensures old(flag(a)) ==> flag(a)
 //@   modifies ghost(errflag, a.logger), alloc
 //@   loop 0 invariant a == a0 && newMap != nil
 //@   loop 1 invariant a == a0 && (old(flag(a)) ==> flag(a))
 //@ func parser.Auditor.checkServices(a, oldServices, newServices)
-//@   locals service, rangeindex, oldService, rangeindex, ok, context
+//@   locals newMap, service, rangeindex, oldService, rangeindex, newService, ok, context
 //@   requires a.logger != nil && tdwf(a.oldFrugal) && tdwf(a.newFrugal)
 //@   ensures old(flag(a)) ==> flag(a)
 //@   modifies ghost(errflag, a.logger), alloc
 //@   loop 0 invariant a == a0 && newMap != nil
 //@   loop 1 invariant a == a0 && (old(flag(a)) ==> flag(a))
 //@ func parser.Auditor.checkServiceMethods(a, oldMethods, newMethods, context)
-//@   locals method, rangeindex, oldMethod, rangeindex, ok, methodContext
+//@   locals newMap, method, rangeindex, oldMethod, rangeindex, newMethod, ok, methodContext
 //@   requires a.logger != nil && tdwf(a.oldFrugal) && tdwf(a.newFrugal)
 //@   ensures old(flag(a)) ==> flag(a)
 //@   modifies ghost(errflag, a.logger), alloc
 //@   loop 0 invariant a == a0 && newMap != nil
 //@   loop 1 invariant a == a0 && (old(flag(a)) ==> flag(a))
 //@ func parser.Auditor.checkFields(a, oldFields, newFields, context)
-//@   locals oldMap, min, max, oldField, fieldContext, ok, oldFieldReq, ok, fieldContext
+//@   locals oldMap, newMap, min, max, oldField, newField, fieldContext, newField, ok, oldFieldReq, newFieldReq, ok, fieldContext
 //@   requires a.logger != nil && tdwf(a.oldFrugal) && tdwf(a.newFrugal)
 //@   ensures old(flag(a)) ==> flag(a)
 //@   modifies ghost(errflag, a.logger), alloc
@@ -293,7 +293,7 @@ package compiler
 
 // The audit fails exactly when a file does not parse or an error was logged.
 //@ func parser.Auditor.Audit(a, oldFile, newFile)
-//@   locals err, oldFrugal
+//@   locals newFrugal, err, oldFrugal
 //@   requires a.logger != nil
 //@   ensures ncalls("parser.ValidationLogger.ErrorsLogged") == 1 ==> (err != nil) == flag(a)
 //@   ensures ncalls("parser.ValidationLogger.ErrorsLogged") == 1 ==> ncalls("parser.ParseFrugal") == 2
